@@ -38,7 +38,8 @@ Section Sem.
          (exists nx, hget (st_heap s') ua = Some (OUp (mkUp (Some loc) VNil nx))) /\
          st_stack s' = st_stack s1 /\ st_calls s' = st_calls s1 /\ st_globals s' = st_globals s1 /\
          (forall x, oview (hget (st_heap s1) x) = None -> x <> ua -> x <> ca ->
-                    hget (st_heap s') x = hget (st_heap s1) x)).
+                    hget (st_heap s') x = hget (st_heap s1) x) /\
+         heap_mono (st_heap s1) (st_heap s')).
   Proof.
     intros ip0 s index is_local s1 ca ch car cups off l loc Hop Ei Eil Hnz Ep Hca Eo El Hlt Hs Hl.
     pose proof (spop_keep _ _ _ Ep) as K.
